@@ -7,6 +7,10 @@ CHECKS = {
          "Every reachable state within the depth bound is probed on the real in-memory, SQLite, SQLite-reopened and HTTP implementations: the walk from the chain base must return exactly the versions the implementation itself acknowledged, in order, and no two stored versions may share a parent. Exhaustive within the stated alphabet/depth; the right level because the property quantifies over histories, which a BFS over the real transition function enumerates.", "4.1, 5/C01"),
  "C02": ("E-SEQ", "model_checking", "explicit-state BFS; every AddVersion transition compared with the reference model (response, fresh id, stored row, untouched state on reject)",
          "Every AddVersion transition (every parent class, from every reachable state within the bound) is executed on library and HTTP entries over both backends and compared with the reference model: acceptance iff empty or parent = latest, fresh non-nil id, stored parent/payload, conflict names latest and changes nothing.", "4.1, 5/C02"),
+ "C04": ("E-CRASH", "fault_enumeration", "exhaustive crash-point enumeration: every state-changing VFS call of a request history is a crash point; process-crash image + power-loss images (synced content + every subset of unsynced writes) recovered by the real code",
+         "The real SQLite write path runs over a shim VFS that logs every file operation; for every crash point of every history the process-crash image and all power-loss images (all subsets of unsynced writes up to the cap, deviation-bounded above it; thorough: torn sectors) are materialised and recovered by the real SqliteStorage::new, integrity-checked, read back through the protocol and compared with the reference model after the acknowledged prefix or that prefix plus the whole in-flight request; service must continue. The log replayed on the device model must reproduce the on-disk files byte for byte (conformance).", "4.4, 5/C04"),
+ "C05": ("E-FAULT", "fault_enumeration", "exhaustive fault-plan enumeration at two layers: k-th Storage/StorageTxn call and k-th VFS call of a request fails (before/after effect, one-shot/sticky), single and double faults, fault-free epilogue",
+         "For every request kind in several states, through library and HTTP entries on the SQLite backend, every storage-trait call and every VFS call the request makes is failed in turn (before or after taking effect; one-shot or sticky; pairs for double faults). Oracle: correct acknowledgement only with the after-state; an error only with exactly the before- or after-state (full dump); never a wrong non-error answer; the following requests are served per the model, without waiting for a lock; integrity_check ok.", "4.5, 5/C05"),
  "C06": ("E-PAYLOAD", "exploration", "exhaustive product of a boundary-structured payload alphabet (length x byte class x chunking x route x backend x entry), each uploaded through the real code and read back",
          "Model checking's exhaustive enumeration applied to an input alphabet rather than a state space: every payload of the alphabet (all lengths 1..300 and 3800..4200, page/overflow/varint boundaries, 7 byte classes, numeric-looking texts, all one-byte payloads, all chunk compositions of short bodies and boundary splits of long ones) is uploaded and read back on both backends through library and in-process HTTP. Exhaustive over the alphabet only; the payload space itself is not enumerable, hence level exploration.", "5/C06"),
  "C07": ("E-SEQ", "model_checking", "explicit-state BFS; every acknowledged version re-read in every later state, also after reopen",
@@ -68,6 +72,8 @@ def main():
             "add_only": True,
         },
         "engines": [
+            {"name": "E-CRASH", "path": "harness/src/ecrash.rs", "serves_properties": ["C04"], "kind_free_text": "VFS operation log -> exhaustive crash images -> recovery by the real code"},
+            {"name": "E-FAULT", "path": "harness/src/efault.rs", "serves_properties": ["C05"], "kind_free_text": "exhaustive single/double fault plans at the storage-trait seam and at the VFS"},
             {"name": "E-HTTP", "path": "harness/src/ehttp.rs", "serves_properties": ["C15", "C16", "C20"], "kind_free_text": "exhaustive enumeration of a request grammar against the real actix app on live state"},
             {"name": "E-PAYLOAD", "path": "harness/src/epayload.rs", "serves_properties": ["C06"], "kind_free_text": "exhaustive enumeration of a payload/chunking alphabet through the real upload and read paths"},
             {"name": "E-SWEEP", "path": "harness/src/esweep.rs", "serves_properties": ["C12"], "kind_free_text": "exhaustive product of boundary configurations and measures executed on the real urgency computation"},
